@@ -1140,6 +1140,212 @@ def m_control_flow_wrap(main, rng, tpl):
 
 
 # ----------------------------------------------------------------------------------------------
+# 12. boundary: empty / singleton / off-by-one shapes
+# ----------------------------------------------------------------------------------------------
+
+_IDX_LITERALS = ["0", "-1", "1", "-2", "2", "3", "-3", "-4", "1000000", "-1000000", "18446744073709551616"]
+_DUNDER_CALLS = ["{x}.__add__()", "{x}.__radd__()", "{x}.__rpow__(1, 2, 3)", "{x}.__neg__(1)", "{x}.__getitem__()",
+                 "{x}.__len__(1)", "{x}.__iter__(1)", "{x}.__bool__({x})", "{x}.__eq__()", "{x}.__lt__(1, 2)",
+                 "{x}.__call__()", "{x}.__rsub__({x}, {x})", "{x}.__setitem__(0)", "{x}.__next__(0)", "{x}.__mul__(*())",
+                 "{x}.__pos__({x}, {x})", "{x}.__rmul__()", "{x}.__truediv__()", "{x}.__int__(1)", "{x}.__float__(1)",
+                 "{x}.__new__()", "{x}.copy(1)", "{x}.__rfloordiv__()", "{x}.__abs__(1)"]
+_EMPTY_EXPRS = ["()", "[]", "array()", "comptime([])", "comptime(())", "''", "range(0)", "(0,)", "[0]", "array(0)",
+                "comptime((1, 2, 3))", "comptime([1])", "((),)", "array(())"]
+
+
+def _insert_pos(main, rng):
+    """(list, index) of a position in a statement list that is not after a return/break/continue."""
+    cands = []
+    for lst, _owner, _f, _il, _in in stmt_lists(main):
+        for i in range(len(lst) + 1):
+            if i > 0 and isinstance(lst[i - 1], (ast.Return, ast.Break, ast.Continue)):
+                break
+            cands.append((lst, i))
+    return pick(rng, cands)
+
+
+def m_boundary(main, rng, tpl):
+    sub = rng.randrange(12)
+    if sub == 0:
+        # an index literal at or beyond either end, in any existing subscript
+        subs = [s for s in expr_slots(main) if isinstance(s.get(), ast.Subscript)
+                and not isinstance(s.get().slice, ast.Slice)]
+        s = pick(rng, subs)
+        if s is None:
+            return None
+        lit = pick(rng, _IDX_LITERALS)
+        s.get().slice = E(lit)
+        return f"index literal {lit} in `{ast.unparse(s.get())}`"
+    if sub == 1:
+        # index a fresh tuple / array of length 0, 1, 2 at and beyond both ends
+        pos = _insert_pos(main, rng)
+        if pos is None:
+            return None
+        n = rng.randrange(3)
+        elts = [pick(rng, ["0", "1.5", "True", a_name(rng, main)]) for _ in range(n)]
+        kind = rng.randrange(4)
+        if kind == 0:
+            lit = "(" + "".join(e + ", " for e in elts) + ")"
+        elif kind == 1:
+            lit = "array(" + ", ".join(elts) + ")"
+        elif kind == 2:
+            lit = "[" + ", ".join(elts) + "]"
+        else:
+            lit = "comptime((" + "".join(pick(rng, ["0", "1.5", "True"]) + ", " for _ in range(n)) + "))"
+        k = pick(rng, [0, -1, n, -n - 1, n - 1, -n, 1])
+        direct = rng.random() < 0.4
+        code = f"bnd_v = {lit}[{k}]" if direct else f"bnd_t = {lit}\nbnd_v = bnd_t[{k}]"
+        lst, i = pos
+        lst[i:i] = S(code)
+        return f"insert `{code}`".replace("\n", "; ")
+    if sub == 2:
+        # annotated statement without a value: drop the initialiser of an existing one ...
+        anns = [(lst, i) for lst, i, _il, _in in stmt_sites(main)
+                if isinstance(lst[i], ast.AnnAssign) and lst[i].value is not None and isinstance(lst[i].target, ast.Name)]
+        c = pick(rng, anns)
+        if c is not None and rng.random() < 0.6:
+            lst, i = c
+            lst[i].value = None
+            return f"drop initialiser: `{ast.unparse(lst[i])}`"
+        # ... or turn a plain assignment into a bare declaration / declare a fresh variable and use it
+        assigns = [(lst, i) for lst, i, _il, _in in stmt_sites(main)
+                   if isinstance(lst[i], ast.Assign) and len(lst[i].targets) == 1 and isinstance(lst[i].targets[0], ast.Name)]
+        c = pick(rng, assigns)
+        ty = pick(rng, ["int", "float", "bool", "qubit", "array[int, 0]", "tuple[()]", "tuple[int]", "None"])
+        if c is not None and rng.random() < 0.5:
+            lst, i = c
+            name = lst[i].targets[0].id
+            lst[i] = S(f"{name}: {ty}")[0]
+            return f"assignment replaced by declaration `{name}: {ty}`"
+        pos = _insert_pos(main, rng)
+        if pos is None:
+            return None
+        lst, i = pos
+        use = pick(rng, ["bnd_d + 1", "bnd_d", "(bnd_d, bnd_d)", "bnd_d[0]", "-bnd_d"])
+        form = rng.randrange(3)
+        code = [f"bnd_d: {ty}\nbnd_u = {use}", f"bnd_d: {ty}\nbnd_d += 1",
+                f"def bnd_f(k: int) -> int:\n    bnd_d: {ty}\n    return bnd_d + k\nbnd_u = bnd_f(1)"][form]
+        lst[i:i] = S(code)
+        return f"insert `{code}`".replace("\n", "; ")
+    if sub == 3:
+        # explicit dunder / method call with too few or too many arguments
+        pos = _insert_pos(main, rng)
+        if pos is None:
+            return None
+        x = a_name(rng, main)
+        call = pick(rng, _DUNDER_CALLS).format(x=x)
+        lst, i = pos
+        code = call if rng.random() < 0.5 else f"bnd_r = {call}"
+        lst[i:i] = S(code)
+        return f"insert `{code}`"
+    if sub == 4:
+        # existing method call: no arguments at all / two more
+        calls = [s.get() for s in expr_slots(main) if isinstance(s.get(), ast.Call)]
+        c = pick(rng, calls)
+        if c is None:
+            return None
+        if rng.random() < 0.5:
+            if not c.args and not c.keywords:
+                return None
+            c.args, c.keywords = [], []
+            return f"all arguments removed: `{ast.unparse(c)}`"
+        c.args = c.args + [E("0"), E("()")]
+        return f"two more arguments: `{ast.unparse(c)}`"
+    if sub == 5:
+        # an empty / singleton container in place of an expression (call arguments preferred)
+        slots = [s for s in expr_slots(main, include_targets=False)]
+        args = [s for s in slots if isinstance(s.parent, ast.Call) and s.field == "args"]
+        s = pick(rng, args if args and rng.random() < 0.7 else slots)
+        if s is None:
+            return None
+        lit = pick(rng, _EMPTY_EXPRS)
+        old = ast.unparse(s.get())
+        s.set(E(lit))
+        return f"`{old}` -> `{lit}`"
+    if sub == 6:
+        # zero / one in array sizes and ranges
+        cands = []
+        for node in ast.walk(main):
+            if isinstance(node, ast.Subscript) and isinstance(node.slice, ast.Tuple) and len(node.slice.elts) == 2 \
+                    and isinstance(node.slice.elts[1], ast.Constant) and isinstance(node.slice.elts[1].value, int):
+                cands.append(("size", node))
+            if isinstance(node, ast.Call) and isinstance(node.func, ast.Name) and node.func.id == "range" and node.args:
+                cands.append(("range", node))
+        c = pick(rng, cands)
+        if c is None:
+            return None
+        k = pick(rng, ["0", "1", "-1"])
+        if c[0] == "size":
+            c[1].slice.elts[1] = E(k)
+        else:
+            c[1].args = [E(k)]
+        return f"{c[0]} {k}: `{ast.unparse(c[1])}`"
+    if sub == 7:
+        # degenerate bodies: only `pass`, only a docstring, only the last statement
+        owners = [(lst, owner) for lst, owner, f, _il, _in in stmt_lists(main) if f == "body"]
+        c = pick(rng, owners)
+        if c is None:
+            return None
+        lst, owner = c
+        form = rng.randrange(3)
+        if form == 0:
+            lst[:] = S("pass")
+        elif form == 1:
+            if not isinstance(owner, ast.FunctionDef):
+                return None
+            lst[:] = S('"""doc"""')
+        else:
+            if len(lst) < 2:
+                return None
+            lst[:] = lst[-1:]
+        return f"body of `{type(owner).__name__}` reduced ({['pass', 'docstring only', 'last statement only'][form]})"
+    if sub == 8:
+        # tuple displays / patterns of length 0 and 1
+        tups = [s for s in expr_slots(main) if isinstance(s.get(), ast.Tuple)]
+        s = pick(rng, tups)
+        if s is None:
+            return None
+        t = s.get()
+        n = rng.randrange(2)
+        if len(t.elts) <= n:
+            return None
+        t.elts = t.elts[:n]
+        return f"tuple cut to length {n}: `{ast.unparse(t)}`"
+    if sub == 9:
+        # starred / list patterns over short right-hand sides
+        pos = _insert_pos(main, rng)
+        if pos is None:
+            return None
+        rhs = pick(rng, ["()", "array()", "(0,)", "array(0)", "(0, 1)", "array(0, 1)", "range(0)", "range(1)", "[]"])
+        pat = pick(rng, ["[*bnd_a]", "*bnd_a,", "bnd_a, *bnd_b", "*bnd_a, bnd_b", "bnd_a, *bnd_b, bnd_c", "bnd_a,", "[bnd_a]",
+                         "bnd_a, bnd_b", "()", "[]"])
+        code = f"{pat} = {rhs}"
+        lst, i = pos
+        lst[i:i] = S(code)
+        return f"insert `{code}`"
+    if sub == 10:
+        # loops over empty things, with the loop variable used afterwards
+        pos = _insert_pos(main, rng)
+        if pos is None:
+            return None
+        it = pick(rng, ["()", "array()", "range(0)", "[]", "comptime([])", "comptime(())", "''"])
+        code = f"for bnd_i in {it}:\n    pass" if rng.random() < 0.5 else f"for bnd_i in {it}:\n    bnd_j = bnd_i\nbnd_k = bnd_j"
+        lst, i = pos
+        lst[i:i] = S(code)
+        return f"insert `{code}`".replace("\n", "; ")
+    # parameters: none at all / main called with nothing
+    if rng.random() < 0.5 and main.args.args:
+        main.args.args = []
+        return "all parameters of main removed"
+    rets = [n for n in ast.walk(main) if isinstance(n, ast.Return) and n.value is not None]
+    r = pick(rng, rets)
+    if r is None:
+        return None
+    r.value = E(pick(rng, ["()", "((),)", "[]", "array()", "None"]))
+    return f"`{ast.unparse(r)}`"
+
+
+# ----------------------------------------------------------------------------------------------
 # driver
 # ----------------------------------------------------------------------------------------------
 
@@ -1155,6 +1361,7 @@ _BASE = {
     "generic_misuse": m_generic_misuse,
     "undefined_var": m_undefined_var,
     "control_flow_wrap": m_control_flow_wrap,
+    "boundary": m_boundary,
 }
 KINDS: list[str] = list(_BASE) + ["compose"]
 
